@@ -16,7 +16,7 @@ ASSUMPTIONS = ['Constraints::filter keeps exactly the compliant elements (R07.3,
 def run(ctx):
     prog = ctx.prog
     ctx.rule('R08.1', 'every return path of every inverse entry point of OPWKinematics ends in the limits filter')
-    ctx.rule('R08.2', 'only the limits filter and the FK gate remove solutions: no retain/truncate/pop/dedup/drain/take/skip on solution vectors')
+    ctx.rule('R08.2', 'only the limits filter and the FK gate remove solutions: no retain/truncate/pop/dedup/drain/take/skip on solution vectors (a search that yields one element - find, nth - removes nothing)')
     ctx.rule('R08.3', 'the singular candidate is pushed only on the true edge of the limits check for that candidate')
     ctx.rule('R08.4', 'wrappers return the inner constraints() and do not modify solutions after the inner call (except a pure sub-sequence filter)')
     fr = opw.filter_role(prog)
@@ -67,7 +67,7 @@ def run(ctx):
             last = nm.split('::')[-1]
             owner = nm.split('::')[0]
             if (last in opw.VEC_REMOVERS and owner in ('Vec', 'slice', 'VecDeque')) or \
-                    (last in opw.ITER_DROPPERS and owner in ('Iterator', 'ParallelIterator', 'IndexedParallelIterator')):
+                    (last in (opw.ITER_DROPPERS - {'find', 'find_map', 'nth', 'last'}) and owner in ('Iterator', 'ParallelIterator', 'IndexedParallelIterator')):
                 bad.append((bi, nm))
         for bi, nm in bad:
             ctx.violation('R08.2', '%s/%s' % (b.path.split('::')[-1], nm), b.where(bi), b.path, 'element-removing operation `%s` on the solution path' % nm)
